@@ -3,14 +3,18 @@
 use crate::run::Prop;
 
 pub mod c01;
+pub mod c02;
 pub mod c03;
 pub mod c04;
 pub mod c05;
+pub mod c11;
 
 pub fn make(id: &str, run: &mut crate::run::Run) -> Option<Box<dyn Prop>> {
 	match id {
 		"C01" => Some(Box::new(c01::C01::new(run))),
+		"C02" => Some(Box::new(c02::C02::new(run))),
 		"C03" => Some(Box::new(c03::C03::new(run))),
+		"C11" => Some(Box::new(c11::C11::new(run))),
 		"C05" => Some(Box::new(c05::C05::new(run))),
 		"C04" => Some(Box::new(c04::C04::new(run))),
 		_ => None,
@@ -22,7 +26,7 @@ pub fn make_for_replay(id: &str, run: &mut crate::run::Run) -> Option<Box<dyn Pr
 	make(id, run)
 }
 
-pub const ALL: &[&str] = &["C01", "C03", "C04", "C05"];
+pub const ALL: &[&str] = &["C01", "C02", "C03", "C04", "C05", "C11"];
 
 /// (runs, max steps per run) per tier
 pub fn budget(id: &str, thorough: bool) -> (u64, usize) {
@@ -45,6 +49,8 @@ pub fn rule(id: &str) -> String {
 		"C04" => "seeded histories (mining, sends both ways, invoices, self-sends, accounts, restarts, node-call failures inside refresh); a case is one successful refresh of an untainted wallet/account; non-trivial when the account's output records changed since its previous judged refresh; distinct by (wallet, account, output-record digest)".into(),
 		"C01" => "seeded histories building varied output sets (coinbases of several maturities, change, locked/unconfirmed outputs, several accounts) followed by bursts of init_send_tx / process_invoice_tx with boundary-rich arguments (amount 0,1,balance+-1,2^32,2^40,u64::MAX-k; min confirmations 0..10; max_outputs 1..500; change outputs 0..7; both strategies; amount-includes-fee; late lock; estimate) under node-call failures and failing writes; a case is one such call with (arguments, outcome); non-trivial when selection produced >=1 input or the call hit a named boundary region (zero change outputs, near numeric limit, injected fault); distinct by argument shape x #inputs".into(),
 		"C05" => "seeded histories; a case is one cancel_tx whose wallet had a base snapshot (refreshed, chain frozen, touched only by the target transaction since) or one refused cancel on a fresh wallet; non-trivial when the rollback comparison ran or the refusal reason was confirmed/coinbase/already-cancelled/unknown; distinct by (entry kind, #transactions touched, #other pending) / refusal class".into(),
+		"C02" => "seeded send / late-lock / self-send / invoice exchanges from wallets in arbitrary mid-history states; in most runs a fraction of replies is altered by one field-level mutation (amount, fee, offset, participant key/nonce/partial signature swapped, dropped, duplicated or taken from another slate, commitments added/removed/replaced, range proof swapped, state, id, participant count, ttl, kernel features, payment-proof fields) before finalization; a case is one finalize attempt (flow kind x mutation kind or honest) or one cancel after a refused finalize; every case counts as non-trivial (the context existed and the reply was well-formed up to one mutation)".into(),
+		"C11" => "seeded proof-carrying sends between 3 wallets, replies altered on their proof fields / amount / participant key, then export by the sender and verification by sender, recipient and a third wallet of the proof and of single-field mutations of it, with the kernel not mined, mined, and re-organised away; a case is one finalize (mutation x answered-by-requested-recipient x outcome) or one verification (mutation x chain state x outcome)".into(),
 		_ => "seeded histories".into(),
 	}
 }
